@@ -30,6 +30,15 @@ def gen_case(r, shape):
     else:
         doc = G.doc(r)
     leaf = G.leaf_of_shape(r, shape, "any")
+    if name in ("factor_of", "has_factor") and pre is None and kind == "value" and r.pct() < 25:
+        # integer arithmetic beyond 2**53 (exact in Python, not in floating point)
+        big = [2**53 + 1, 2**63 - 1, 2**62 + 2, -(2**63), 10**17 + 1, 2**53 + 2]
+        small = [2, 3, 7, 2**31, 12]
+        if isinstance(doc, list):
+            doc.insert(r.below(len(doc) + 1), r.choice(big if name == "has_factor" else small))
+        else:
+            doc[r.choice(["big", "n"])] = r.choice(big if name == "has_factor" else small)
+        leaf = leaf.replace(kwargs={"value": r.choice(small if name == "has_factor" else big)})
     # document-guided arguments: take the argument from the document's own items
     if r.pct() < 40:
         items = model.items_of(doc)
